@@ -125,10 +125,69 @@ def counter_verify(chk, F, rule, cfg):
     chk.sample({'fn': fn.defp, 'config': cfg, 'table': 'Exact: error iff d!=0; AtLeast: iff d<0; AtLeastPlusOne: iff d<=0 (d = actual - minimum), checked at d in -2..2'})
 
 
+def fnmocker_verify_pipeline(chk, F, rule, cfg, fn, paths):
+    """`let total: usize = self.call_patterns.iter().enumerate().map(|(i, p)| p.call_counter.verify(.., errors).0).sum();
+    if total == 0 { errors.push(MockNeverCalled) }` - the iterator form of the accumulating loop."""
+    own = lambda y: y[0] == 'ref' and y[1][1][-1:] == (('f', 'call_patterns'),) and y[1][0] == ('ptr', ('param', 0, 1))  # noqa: E731
+    ok_any = False
+    for p in paths:
+        sums = list(p.calls(r'Iterator>?::sum$'))
+        if len(sums) != 1:
+            return False
+        total = ('call', sums[0].data[1], sums[0].data[2], sums[0].data[3])
+        names = L.pipeline_calls(total, own)
+        fwd = names is not None and all(re.search(r'(Iterator>?::(sum|map|enumerate)|IntoIterator>?::into_iter|::iter|Deref>?::deref)$', n) for n in names)
+        chk.ob(rule, 'every pattern of the method is verified: the counts are summed over a forward-complete traversal of this method\'s own patterns', fwd, config=cfg, fn=fn, site='verify-pipeline',
+               what='verify pipeline %s' % (names,), found=names)
+        # the mapping closure: one CallCounter::verify per element, on the element's own counter, errors = the caller's vector, result = that call's count
+        for e in p.calls(r'Iterator>?::map$'):
+            c = strip(e.data[2][1])
+            if not (c[0] == 'agg' and c[1] == 'closure' and c[2] in F.fns):
+                chk.ob(rule, 'the per-pattern step is a closure literal', False, config=cfg, fn=fn, site='verify-step', unrecognised=True, what='opaque step')
+                continue
+            ups = dict(c[4])
+            cf = F.fns[c[2]]
+            for q in symex.Interp(F).run(cf):
+                vs = list(q.calls(r'^counter::CallCounter::verify$'))
+                ok = len(vs) == 1
+                if ok:
+                    recv = strip(vs[0].data[2][0])
+                    ok_recv = field_path(recv)[1][-1:] == ['call_counter'] and field_path(recv)[0] == ('param', 0, 2)
+                    errs = strip(vs[0].data[2][3])
+                    up_err = [k for k, v in ups.items() if strip(v)[0] == 'ref' and strip(v)[1][0] == ('ptr', ('param', 0, 2))]
+                    ok_err = any(k in show(errs) for k in up_err)
+                    r = strip(q.outcome[1]) if q.outcome[0] == 'return' else ('unk', '')
+                    ok_ret = r[0] == 'field' and r[2] == '0' and is_call(strip(r[1]), r'^counter::CallCounter::verify$')
+                    ok = ok_recv and ok_err and ok_ret
+                chk.ob(rule, 'the counter verified is the current element\'s, errors go to the caller\'s vector, the step yields the returned count', ok, config=cfg, fn=cf, site='verify-step',
+                       what='verify step calls=%d' % len(vs), found=[show(x.data[2][0])[:80] for x in vs])
+                ok_any = ok_any or ok
+        # never-called rule: total == 0 <=> push
+        pushes = [e for e in p.calls(r'Vec::push$') if strip(e.data[2][1])[0] == 'agg' and strip(e.data[2][1])[3] == 'MockNeverCalled']
+        dec = None
+        for d in p.decisions:
+            inner, t = L.truth_of(d)
+            cmp = as_comparison(inner) if t is not None else None
+            if cmp and cmp[0] in ('Eq', 'Ne') and any(strip(x) == total for x in cmp[1:]) and any(strip(x) == ('c', 0) for x in cmp[1:]):
+                dec = (cmp[0] == 'Eq') == t
+        chk.ob(rule, 'MockNeverCalled is pushed iff no pattern of the method was ever matched', dec is not None and len(pushes) == (1 if dec else 0), config=cfg, fn=fn, site='never-called',
+               what='never-called: total==0 is %s but %d pushes' % (dec, len(pushes)), found={'total_is_zero': dec, 'pushes': len(pushes)})
+        for e in pushes:
+            info = dict(strip(e.data[2][1])[4]).get('info', ('unk', ''))
+            chk.ob(rule, 'MockNeverCalled names this method', field_path(info) == (('param', 0, 1), ['info']), config=cfg, fn=fn, site='never-called.info', what='info %s' % show(info), found=show(info))
+    chk.ob(rule, 'FnMocker::verify iterates its patterns', ok_any, config=cfg, fn=fn, site='loop', unrecognised=True, what='no iteration found')
+    callers = [(f.root if f.kind == 'closure' else f.defp, bb) for f, bb, t in F.callers_of('counter::CallCounter::verify')]
+    chk.ob(rule, 'CallCounter::verify is only called by FnMocker::verify', len(callers) == 1 and callers[0][0] == 'fn_mocker::FnMocker::verify', config=cfg, site='callers', what='callers %s' % callers, found=callers)
+    return True
+
+
 def fnmocker_verify(chk, F, rule, cfg):
     fn = F.fn('fn_mocker::FnMocker::verify')
     paths = symex.Interp(F).run(fn)
     chk.analysed(fn)
+    if paths and all(p.called(r'Iterator>?::sum$') and not any(L.is_iter_next(strip(d.value)) for d in p.decisions) for p in paths):
+        if fnmocker_verify_pipeline(chk, F, rule, cfg, fn, paths):
+            return
     L.loops_run_to_completion(chk, rule, fn, cfg, paths)
     seen_iter = False
     for p in paths:
@@ -149,7 +208,7 @@ def fnmocker_verify(chk, F, rule, cfg):
                     src = x
                     break
             names = L.pipeline_calls(src, lambda y: y[0] == 'ref' and y[1][1][-1:] == (('f', 'call_patterns'),) and y[1][0] == ('ptr', ('param', 0, 1))) if src else None
-            fwd = names is not None and all(re.search(r'(Iterator>?::next|IntoIterator>?::into_iter|::iter|Iterator::enumerate|Deref>?::deref)$', n) for n in names)
+            fwd = names is not None and all(re.search(r'(Iterator>?::next|IntoIterator>?::into_iter|::iter|Iterator>?::enumerate|Iterator>?::map|Deref>?::deref)$', n) for n in names)
             chk.ob(rule, 'the counter verified is the current element\'s, errors go to the caller\'s vector, traversal is forward over this method\'s patterns', ok_recv and ok_err and fwd, config=cfg,
                    fn=fn, site='verify-args', what='verify args recv=%s errs=%s order=%s' % (ok_recv, ok_err, names), found={'receiver': show(recv)[:160], 'errors': show(errs), 'pipeline': names})
         # never-called rule
@@ -218,8 +277,8 @@ def into_counter(chk, F, rule, cfg):
         cc = strip(d.get('call_counter', ('unk', '')))
         ok = is_call(cc, r'CallCountExpectation::into_counter$') and field_path(cc[2][0]) == (('param', 0, 2), ['count_expectation'])
         chk.ob(rule, 'the pattern\'s counter is built from the builder\'s expectation, unchanged', ok, config=cfg, fn=nc, site='expectation', what='call_counter %s' % show(cc)[:120], found=show(cc)[:200])
-    lb = F.fn('counter::CallCountExpectation::new')
-    for p in symex.Interp(F).run(lb):
+    lb = F.fn('counter::CallCountExpectation::new', optional=True)    # (a private convenience constructor: absent when the struct literal is written out)
+    for p in (symex.Interp(F).run(lb) if lb is not None else []):
         d = dict(strip(p.outcome[1])[4])
         chk.ob(rule, 'CallCountExpectation::new(minimum, exactness) stores both', d.get('minimum') == ('param', 0, 1) and d.get('exactness') == ('param', 0, 2), config=cfg, fn=lb, site='new', what='new()', found=show(p.outcome[1]))
     de = F.method('counter::CallCountExpectation', 'default', 'core::default::Default')
